@@ -340,8 +340,6 @@ impl<Aux> Vm<'_, Aux> {
             &*program
         };
         let len = program.bytecode.len();
-        // FIXME: should store in VM
-        let mut remaining_iters = self.max_instr;
         let bytecode_ptr = program.bytecode.as_ptr();
         // `instr_ptr` must be the address of the first byte of the instruction that raised the
         // error: that is what the source trace is keyed by
@@ -362,8 +360,10 @@ impl<Aux> Vm<'_, Aux> {
             };
 
         while *instr_ptr < len {
-            remaining_iters = remaining_iters.saturating_sub(1);
-            if remaining_iters == 0 {
+            // the budget is shared with the script functions that native functions call back
+            // into (`run_function`), it is set once per `run`
+            self.remaining_iters = self.remaining_iters.saturating_sub(1);
+            if self.remaining_iters == 0 {
                 return Err(payload_to_error(
                     ExecutionErrorPayload::Timeout,
                     *instr_ptr,
